@@ -74,3 +74,57 @@ def evalSimple (s : MS) (m : SMotion) (count : Nat) (appending : Bool) : MK :=
   | .wholeBuffer => .exclusive 0 s.max
 
 end Vicut
+
+namespace Vicut
+
+/-- `f F t T` with a count (`CharSearch(direction, dest, ch)`): the cursor keeps its clamp kind while it
+scans; `F`/`T` scan everything before the cursor (`(0..pos).rev()`, since fix 602f313; before, the grapheme
+next to the cursor was skipped). -/
+def charSearchGo (gs : List Gr) (ub : Nat) (fwd before : Bool) (ch : Gr) : Nat → Nat → Option Nat
+  | 0, pos => some pos
+  | n + 1, pos =>
+    if fwd then
+      match (List.range' (min (pos + 1) ub) (gs.length - min (pos + 1) ub)).find? (fun i => gs[i]? == some ch) with
+      | none => none
+      | some i => charSearchGo gs ub fwd before ch n (if before then min i ub - 1 else min i ub)
+    else
+      match (List.range pos).reverse.find? (fun i => gs[i]? == some ch) with
+      | none => none
+      | some i => charSearchGo gs ub fwd before ch n (if before then min (min i ub + 1) ub else min i ub)
+
+def evalCharSearch (gs : List Gr) (cur : Nat) (excl fwd before : Bool) (ch : Gr) (count : Nat) : MK :=
+  match charSearchGo gs (if excl then gs.length - 1 else gs.length) fwd before ch count cur with
+  | some p => .onto p
+  | none => .null
+
+end Vicut
+
+namespace Vicut
+
+def clampTo (v len : Nat) (excl : Bool) : Nat := min v (if excl then len - 1 else len)
+
+/-- `move_cursor` for a command without a verb and without an active selection: the cursor value after
+applying the `MotionKind`. `savedCol` is the remembered column (only used by line offsets). -/
+def moveCursor (s : MS) (mk : MK) (savedCol : Option Nat) : Nat :=
+  match mk with
+  | .on p | .onto p => clampTo p s.max s.excl
+  | .to p => if p > clampTo p s.max s.excl then clampTo p s.max s.excl - 1 else clampTo p s.max s.excl
+  | .blockRange ws => match ws.head? with | some w => clampTo w.1 s.max s.excl | none => s.cur
+  | .line n | .lineRange n _ => match lineBounds s.gs n with | some b => clampTo b.1 s.max s.excl | none => s.cur
+  | .lineOffset k =>
+    (fun target =>
+      if target > totalLines s.gs then clampTo s.max s.max s.excl
+      else match lineBounds s.gs target with
+        | some b => clampTo (b.1 + savedCol.getD 0) s.max s.excl
+        | none => s.cur)
+    (if k < 0 then cursorLine s.lb - k.natAbs else cursorLine s.lb + k.toNat)
+  | .inclTarget _ _ col | .exclTarget _ _ col => clampTo (s.sol + min s.eol col) s.max s.excl
+  | .inclusive a _ | .exclusive a _ => clampTo a s.max s.excl
+  | .lines _ | .null => s.cur
+
+/-- ... followed by the epilogue of `exec_cmd` (text unchanged): step off a line terminator under the
+exclusive clamp. -/
+def cursorAfterMotion (s : MS) (mk : MK) (savedCol : Option Nat) : Nat :=
+  (fun v => if s.excl && s.isNlAt v && v > 0 && !s.isNlAt (v - 1) then v - 1 else v) (moveCursor s mk savedCol)
+
+end Vicut
